@@ -433,7 +433,7 @@ func runOneHistory(cfg ConcCfg, seed uint64, cas, h int, res *ConcRes) {
 		d.SetPerturb(rng.U64() | 1)
 	}
 	mon.Reset(0, false)
-	srv := StartSrv(d, SrvOpts{Unstable: cfg.Unstable, RPC: cfg.RPC})
+	srv := StartSrv(d, SrvOpts{Unstable: cfg.Unstable, RPC: cfg.RPC, Timed: cfg.NoCheck && h%2 == 0})
 	lim, err := limitsOf(srv.API, srv.Root)
 	sres := &SeqRes{Stats: Counter{}, States: map[string]bool{}, DeadProbes: Counter{}}
 	s := &Sess{p: Profile{Name: cfg.Name, Unstable: cfg.Unstable}, rng: rng, srv: srv, res: sres, inumSeen: map[uint64]int{}}
@@ -679,6 +679,7 @@ func runOneHistory(cfg ConcCfg, seed uint64, cas, h int, res *ConcRes) {
 	if cfg.NoCheck {
 		// C14: statistics are read (and reset) while requests are served
 		nsrv := srv.N
+		td := srv.TD
 		go func() {
 			defer close(statsDone)
 			for k := 0; ; k++ {
@@ -688,8 +689,14 @@ func runOneHistory(cfg ConcCfg, seed uint64, cas, h int, res *ConcRes) {
 				default:
 				}
 				nsrv.WriteOpStats(io.Discard)
+				if td != nil {
+					td.WriteStats(io.Discard) // what `go-nfsd -stats` prints: disk statistics too
+				}
 				if k%4 == 3 {
 					nsrv.ResetOpStats()
+					if td != nil {
+						td.ResetStats()
+					}
 				}
 				runtime.Gosched()
 			}
